@@ -50,7 +50,12 @@ func GenScenario(r *hc.RNG, w Weights) *Scenario {
 	for i := 0; i < n; i++ {
 		id := int64(1 + i)
 		allIDs = append(allIDs, id)
-		sc.Calls = append(sc.Calls, Option{Kind: "start", ID: id, Seq: int32(2*i + 1), Body: uint64(7 + r.Intn(50))})
+		st := Option{Kind: "start", ID: id, Seq: int32(2*i + 1), Body: uint64(7 + r.Intn(50))}
+		if r.Chance(60) {
+			st.CtxKind = r.Intn(NumCtxKinds)
+		}
+		st.PreCanc = r.Chance(5)
+		sc.Calls = append(sc.Calls, st)
 		if r.Chance(w.Result) {
 			notif("nres", id)
 		}
